@@ -385,6 +385,7 @@ class Report:
                       open(path, "w"), indent=1, default=str)
             tail = "" if v["concrete"] else " no-failing-input-found"
             lines.append("VIOLATION property=%s replay=%s%s" % (self.prop, path, tail))
+            lines.append("  what: %s" % " ".join(str(v["what"]).split())[:700])
         cov = dict(self.cov)
         if self.obl is not None:
             cov["obligations"] = max(1, self.obl["obligations"])
